@@ -1,4 +1,6 @@
 """C25  Vector-star bases are orthonormal, equivariant and complete; expansions reproduce projected direct assemblies."""
+import os
+
 import numpy as np
 from hypothesis import strategies as st
 
@@ -8,7 +10,7 @@ from ..oracles import pairstates_ref as ref
 
 ID = "C25"
 RULE = ("Hypothesis draws a crystal recipe (2D/3D, generated or catalogue incl. crystals whose vacancy sites carry a vector basis, <= 3 vacancy "
-        "sites), vacancy species, cutoff shell k in 1..3, range N in 1..3 (lowered by construction until <= 160 brute-force states), origin "
+        "sites), vacancy species, cutoff shell k in 1..3, range N in 1..3 (lowered by construction until <= 160 brute-force states and a bounded size of the dense expansion arrays), origin "
         "states (on in 3 of 4 cases) and lists of positive numbers used as Green-function values per difference orbit, symmetric rates per "
         "jump class and escape rates per (class, end star) and per (omega0 class, vacancy Wyckoff set). Oracle: states, operations and orbits "
         "from own integer arithmetic (oracles/pairstates_ref); each vector star must be a vector field on one complete star, the fields on a "
@@ -29,6 +31,7 @@ ASSUMPTIONS = ["the vacancy jump network and the omega1/omega2 jump lists handed
                "contracted expansions to 1e-7 x (number of classes) x largest rate (zeroclean removes coefficients below 1e-8)"]
 SHARDS = {"quick": 4, "thorough": 16}
 CAP = 160
+COST = 3e6    # bound on Nv^2 x (GF stars or omega1 classes): the library cleans these arrays element by element in Python
 VTOL = 1e-8
 EXCLUDE_C2AXIS = True   # stars whose stabiliser has a two-fold axis along dx and no mirror: spurious, non-equivariant vector star
 
@@ -69,6 +72,9 @@ def check(case, exclude=None):
     jumps = [t for cl in jcl for t in cl]
     origin = bool(case["origin"])
     N, expected = ref.capped_range(pg, jumps, case["N"], CAP, origin)
+    while N > 1 and pairs.basis_cost(pg, expected, jumps)[1] > COST:
+        N -= 1
+        expected = pg.reachable(jumps, N, origin)
     d = pg.d
     S = stars.StarSet(jn, crys, chem, N, originstates=origin)
     keys = keyset(S)
@@ -354,7 +360,7 @@ def run(ctx):
     ctx.known(lambda case: check(case, exclude=False))
     base = catalogue_cases()
     ctx.cases([c for i, c in enumerate(base) if ctx.mine(i)], chk, label="catalogue")
-    ctx.given(cases(), chk, quick=160, thorough=5000)
+    ctx.given(cases(), chk, quick=160, thorough=5000, shrink=os.environ.get('VERIF_NOSHRINK') is None)
 
 
 def replay(case):
